@@ -1,10 +1,13 @@
 //! Verification harness for jpreprocess/jbonsai: property-based testing and fuzzing.
+pub mod alloc_count;
 pub mod bundled;
 pub mod corpus;
 pub mod dsp;
 pub mod engine_case;
 pub mod engine_util;
+pub mod faults;
 pub mod hts_reader;
+pub mod isolate;
 pub mod props;
 pub mod runner;
 pub mod tape;
